@@ -37,13 +37,18 @@ type yieldStrategy struct {
 	inner core.Strategy
 	sc    *sched
 	after func(n int) // called right after the inner SetLimit(n) returned
+	refused func()    // called right after the inner strategy refused a request
 	stall yieldList
 	mu    sync.Mutex
 	k     int
 }
 
 func (y *yieldStrategy) TryAcquire(ctx context.Context) (core.StrategyToken, bool) {
-	return y.inner.TryAcquire(ctx)
+	tk, ok := y.inner.TryAcquire(ctx)
+	if !ok && y.refused != nil {
+		y.refused() // right here, inside the limiter's critical section: nothing has been unlocked since the decision
+	}
+	return tk, ok
 }
 func (y *yieldStrategy) SetLimit(n int) {
 	y.sc.Point("strategy.setlimit")
@@ -126,6 +131,20 @@ func runC05C(_ *testing.T, c c05cCase) kit.Outcome {
 			staleMu.Unlock()
 		}
 	}
+	// a refusal while the strategy itself reports room under the limit it enforces means the decision was taken
+	// against another (stale) limit than the one the last update installed. The reads are made inside the strategy
+	// call, i.e. inside the limiter's critical section and before anything is unlocked: once the limiter's mutex is
+	// released it may be handed straight to a waiting completion (sync.Mutex starvation mode yields to the waiter),
+	// after which busy counts are no longer those of the decision
+	ys.refused = func() {
+		if bz, lm := b.stratBusy(), b.stratLimit(); bz < lm {
+			staleMu.Lock()
+			if stale == "" {
+				stale = fmt.Sprintf("a request was refused while the strategy reports busy=%d below its limit=%d (estimate %d, update #%d)", bz, lm, b.script.EstimatedLimit(), b.script.i)
+			}
+			staleMu.Unlock()
+		}
+	}
 	lim, err := limiter.NewDefaultLimiter(b.script, 1, 1, 0, 10, ys, nil, b.reg)
 	if err != nil {
 		return kit.Outcome{Harness: err.Error()}
@@ -142,21 +161,9 @@ func runC05C(_ *testing.T, c c05cCase) kit.Outcome {
 		for i := 0; i < c.Cycles; i++ {
 			l, ok := lim.Acquire(stackKeyCtx(context.Background(), []string{"a", "b"}[(id+i)%2]))
 			if !ok {
-				// nothing can run between the refusal and these reads (one P, no preemption, no schedule point on the
-				// way out): a refusal while the strategy itself reports room under the limit it enforces means the
-				// decision was taken against another (stale) limit than the one the last update installed
-				if bz, lm := b.stratBusy(), b.stratLimit(); bz < lm {
-					staleMu.Lock()
-					if stale == "" {
-						stale = fmt.Sprintf("worker %d cycle %d was refused while the strategy reports busy=%d below its limit=%d (estimate %d, update #%d)", id, i, bz, lm, b.script.EstimatedLimit(), b.script.i)
-					}
-					refusedFull = true
-					staleMu.Unlock()
-				} else {
-					staleMu.Lock()
-					refusedFull = true
-					staleMu.Unlock()
-				}
+				staleMu.Lock()
+				refusedFull = true
+				staleMu.Unlock()
 			}
 			sc.Point("worker.acquired")
 			if ok && id < len(c.Hold) && c.Hold[id] {
